@@ -305,7 +305,13 @@ fn eps_alloc_one<C: Case, const PRE: usize, const N: usize>(x: &C::T) -> (usize,
     let e = <C::T>::_deserialize_eps_inner(&mut sl);
     let got = (alloc_bytes(), unsafe { ALLOC_CALLS });
     match e {
-        Ok(e) => { drop(e); }
+        Ok(e) => {
+            // dropped natively (Miri sees a leak otherwise); not dropped under CBMC (see eps_alloc)
+            #[cfg(kani)]
+            core::mem::forget(e);
+            #[cfg(not(kani))]
+            drop(e);
+        }
         Err(er) => { core::mem::forget(er); assert!(false, "C03: eps deserialization of an aligned buffer succeeds"); }
     }
     got
